@@ -13,6 +13,7 @@
                              The code's own tolerances force it: an uncovered deficit leaves every excess <= eps, not 0,
                              and math.isclose may cover a deficit that exceeds the donor's excess by 1e-9 relative. *)
 From Coq Require Import QArith List.
+From Verif Require model.Accounting proofs.AccountingFacts.
 From Verif Require Import model.Dist model.DistMgr proofs.DistFacts proofs.DistMgrFacts proofs.DistBounds proofs.DistTop proofs.DistRemainder proofs.DistWitness.
 Import ListNotations.
 Open Scope Q_scope.
@@ -34,6 +35,23 @@ Theorem C01_manager_conserves : forall powf gs p adj rr,
   sumsp (res_dist (rr_res rr)) + res_rem (rr_res rr) == p /\
   res_distributed rr == sumsp (res_dist (rr_res rr)).
 Proof. exact manager_conserves. Qed.
+
+(* ... and under API faults (every inverter's set_power is accepted, rejected as out of range, fails with another client
+   error or does not answer): the Result's succeeded power is the sum of the ACCEPTED set-points, its failed power the sum
+   of the rejected ones, and succeeded + failed + excess == request.  Result accounting = model/Accounting.v (C15). *)
+Theorem C01_reported_is_commanded_under_faults : forall powf gs p adj rr m out_of,
+  czero p = false -> manager_request powf gs p adj = MDone rr ->
+  (forall inv, In inv (map fst (res_dist (rr_res rr))) -> Accounting.inv_bats m inv <> nil) ->
+  res_dist (rr_res rr) <> nil ->
+  let d := res_dist (rr_res rr) in
+  let outs := map (fun c => out_of (fst c)) d in
+  let R := faults_result p rr m out_of in
+  Accounting.r_reported R = true /\
+  Accounting.r_succeeded_power R == Accounting.qsum (map snd (AccountingFacts.ok_calls d outs)) /\
+  Accounting.r_failed_power R == Accounting.qsum (map snd (AccountingFacts.failed_calls d outs)) /\
+  Accounting.r_succeeded_power R + Accounting.r_failed_power R + Accounting.r_excess R == p /\
+  Accounting.r_excess R == res_rem (rr_res rr).
+Proof. exact manager_reported_under_faults. Qed.
 
 (* every set-point has the request's sign or is zero: exact, no condition on the run or on admission *)
 Theorem C01_sign : forall powf gs p r,
@@ -72,6 +90,7 @@ Proof. exact (conj ex_wf (conj ex_admitted (conj ex_slack_small ex_runs))). Qed.
 Print Assumptions C01_sum.
 Print Assumptions C01_reported_is_commanded.
 Print Assumptions C01_manager_conserves.
+Print Assumptions C01_reported_is_commanded_under_faults.
 Print Assumptions C01_sign.
 Print Assumptions C01_remainder.
 Print Assumptions C01_remainder_slack_formula.
